@@ -34,6 +34,9 @@ type c11Case struct {
 	Sizes    []int     `json:"sizes"` // initial messages (payload size classes)
 	Steps    []c11Step `json:"steps"`
 	Grpc     bool      `json:"grpc"` // drive through the real StreamingPull RPC instead of the scripted connection
+	// Unset (gRPC only): "msgs", "bytes" or "both" - that limit is sent as 0 / -1
+	// ("no client limit"); the other one stays binding
+	Unset string `json:"unset,omitempty"`
 }
 
 var c11SizeBytes = []int{12, 200, 5000}
@@ -190,6 +193,15 @@ func runC11(s *sut.SUT, cs c11Case) (rule, detail string, nontrivial bool) {
 	if err := publish(cs.Sizes); err != nil {
 		return "harness", err.Error(), false
 	}
+	// a limit the client leaves unset does not bind; the scripts stay far below
+	// the server's own defaults (1000 messages / 10 MiB)
+	reqMsgs, reqBytes := int64(cs.MaxMsgs), int64(cs.MaxBytes)
+	if cs.Grpc && (cs.Unset == "msgs" || cs.Unset == "both") {
+		cs.MaxMsgs, reqMsgs = 1000, 0
+	}
+	if cs.Grpc && (cs.Unset == "bytes" || cs.Unset == "both") {
+		cs.MaxBytes, reqBytes = 10<<20, -1
+	}
 	conn := newFlowConn(cs.MaxMsgs, cs.MaxBytes)
 	sctx, cancel := context.WithCancel(ctx)
 	done := make(chan error, 1)
@@ -209,7 +221,7 @@ func runC11(s *sut.SUT, cs c11Case) (rule, detail string, nontrivial bool) {
 			cancel()
 			return "harness", err.Error(), false
 		}
-		if err := st.Send(&pubsubpb.StreamingPullRequest{Subscription: c11S, StreamAckDeadlineSeconds: 60, MaxOutstandingMessages: int64(cs.MaxMsgs), MaxOutstandingBytes: int64(cs.MaxBytes)}); err != nil {
+		if err := st.Send(&pubsubpb.StreamingPullRequest{Subscription: c11S, StreamAckDeadlineSeconds: 60, MaxOutstandingMessages: reqMsgs, MaxOutstandingBytes: reqBytes}); err != nil {
 			cancel()
 			return "harness", err.Error(), false
 		}
@@ -462,6 +474,9 @@ func genC11(rt *rapid.T) c11Case {
 		cs.Steps = append(cs.Steps, c11Step{K: k, N: rapid.IntRange(1, 3).Draw(rt, "n"), Z: rapid.IntRange(0, 2).Draw(rt, "z")})
 	}
 	cs.Grpc = rapid.IntRange(0, 2).Draw(rt, "grpc") == 0
+	if cs.Grpc {
+		cs.Unset = rapid.SampledFrom([]string{"", "", "", "msgs", "bytes", "both"}).Draw(rt, "unset")
+	}
 	return cs
 }
 
